@@ -368,6 +368,37 @@ class Models(object):
             return UNIT, S.TRUE
         R('<Vec as Extend>::extend|Vec::append', vec_extend)
 
+        def iter_any_all(which):
+            def f(ex, fr, c, a, st, pc):
+                from .exec import merge_states
+                it = self._deep(st, a[0])
+                if not (isinstance(it, tuple) and it and it[0] == 'veciter'):
+                    raise Unsupported('Iterator::%s on %r' % (which, it))
+                _, vec, idx, mode = it
+                if not S.is_const(idx):
+                    raise Unsupported('Iterator::%s on a partly consumed iterator' % which)
+                acc = S.FALSE if which == 'any' else S.TRUE
+                live = S.TRUE
+                for i in range(S.cval(idx), len(vec.cells)):
+                    e = vec.cells[i]
+                    if e is UNDEF:
+                        continue
+                    has = S.Ult(b64(i), vec.length)
+                    if has is S.FALSE:
+                        continue
+                    arg = RefV(ex.alloc(st, e, 'elem'), ()) if mode == 'ref' else e
+                    base = st
+                    r, st2, l2 = ex.call_closure(a[1], [arg], st.copy() if has is not S.TRUE else st, S.And(pc, has))
+                    if st2 is None:
+                        raise Unsupported('closure of Iterator::%s diverges' % which)
+                    st = merge_states([(has, st2), (S.Not(has), base)]) if has is not S.TRUE else st2
+                    live = S.And(live, S.Or(S.Not(has), l2))
+                    acc = S.Or(acc, S.And(has, r)) if which == 'any' else S.And(acc, S.Or(S.Not(has), r))
+                return acc, st, live
+            return f
+        R('<Iter as Iterator>::any|<IntoIter as Iterator>::any', iter_any_all('any'))
+        R('<Iter as Iterator>::all|<IntoIter as Iterator>::all', iter_any_all('all'))
+
         def vec_pop(ex, fr, c, a, st, pc):
             v = rd(st, a[0])
             has = S.Not(S.Eq(v.length, b64(0)))
